@@ -48,6 +48,31 @@ theorem topBal_adds (es : List TopEntry) (hes : ∀ e ∈ es, 1 ≤ e.result ∧
     have he := hes e (List.mem_cons_self ..)
     exact ih (fun x hx => hes x (List.mem_cons_of_mem _ hx)) (topBal_add h e he.1 he.2)
 
+theorem total_addN (m : CountMap) (k c : Nat) : (m.addN k c).total = m.total + c := by
+  induction m with
+  | nil => simp [CountMap.addN, CountMap.total]
+  | cons x r ih =>
+    obtain ⟨k', c'⟩ := x
+    simp only [CountMap.addN]
+    by_cases h : k' = k
+    · simp [h, CountMap.total]; omega
+    · simp only [h, if_false]
+      simp only [CountMap.total, List.map_cons, List.sum_cons] at ih ⊢
+      omega
+
+theorem total_addAll (ps : List (Nat × Nat)) (m : CountMap) :
+    (ps.foldl (fun m p => m.addN p.1 p.2) m).total = m.total + (ps.map (·.2)).sum := by
+  induction ps generalizing m with
+  | nil => simp
+  | cons p ps ih => simp only [List.foldl_cons, ih, total_addN, List.map_cons, List.sum_cons]; omega
+
+theorem total_collect_aux (lists : List (List (Nat × Nat))) (m : CountMap) :
+    (lists.foldl (fun m ps => ps.foldl (fun m p => m.addN p.1 p.2) m) m).total =
+      m.total + (lists.map fun ps => (ps.map (·.2)).sum).sum := by
+  induction lists generalizing m with
+  | nil => simp
+  | cons ps lists ih => simp only [List.foldl_cons, ih, total_addAll, List.map_cons, List.sum_cons]; omega
+
 /-! ### sorting and truncation -/
 
 def pairsTotal (l : List (Nat × Nat)) : Nat := (l.map (·.2)).sum
